@@ -12,7 +12,7 @@ PY="env PYTHONPATH=$WT/src PYTHONHASHSEED=0 /venv/bin/python -W ignore"
 if ! git -C "$WT" apply --3way "$SEED/patch.diff" 2>/tmp/seed/ev_$CID.apply.log; then echo "PATCH DOES NOT APPLY"; cat /tmp/seed/ev_$CID.apply.log; git -C /repo worktree remove --force "$WT"; exit 3; fi
 ( cd "$WT" && $PY "$SEED/demo.py" >/tmp/seed/ev_$CID.mut.log 2>&1 ); echo "demo with the change:   exit $?"
 for c in $CHECKS; do
-  ( cd /verif && VERIF_REPO="$WT" bin/check "$c" quick > /tmp/seed/ev_$CID.$c.log 2>&1 ); rc=$?
+  ( cd /verif && VERIF_EVIDENCE_DIR=/tmp/seed/evidence VERIF_REPO="$WT" bin/check "$c" quick > /tmp/seed/ev_$CID.$c.log 2>&1 ); rc=$?
   echo "check $c on the changed tree: exit $rc"; grep -E "VIOLATION|KNOWN-FINDING|CHECK-ERROR" /tmp/seed/ev_$CID.$c.log | head -5
 done
 git -C /repo worktree remove --force "$WT"
